@@ -131,8 +131,8 @@ theorem candStream_law (s : ℕ) (hs : 0 < s) :
     measurable_pi_lambda _ (fun p => measurable_pi_apply _)
   have hm3 : Measurable (fun (x : ℕ → Fin 4 → ℝ) (m : ℕ) => L4 (x m)) :=
     measurable_pi_lambda _ (fun m => measurable_L4.comp (measurable_pi_apply m))
-  rw [candStream_eq, ← Measure.map_map (hm3.comp (MeasurableEquiv.measurable _)) hm1,
-    ← Measure.map_map hm3 (MeasurableEquiv.measurable _)]
+  rw [candStream_eq, ← Measure.map_map hm3 ((MeasurableEquiv.measurable _).comp hm1),
+    ← Measure.map_map (MeasurableEquiv.measurable _) hm1]
   unfold streamμ
   rw [h1, h2, h3]
   congr 1
